@@ -50,6 +50,11 @@ package main
 //     bytes.Equal, fmt.*.  Over-approximating "writes" is the safe direction: under RLock it breaks the discipline.
 //     A constructor that receives no record (`newNameRecord(name, …)`) needs nothing: storing its result is the
 //     caller's `n.names[k] = …`, a write as before.
+//   - "the map handed to a library function".  `maps.DeleteFunc(n.names, …)` is the delete loop of CleanExpiredNames
+//     in one call.  A call that receives `<x>.names` itself is a WRITE unless it is one of the read-only ones (len,
+//     maps.Keys/Values/All/Clone/Equal/EqualFunc, fmt.*): maps.DeleteFunc, maps.Copy, maps.Insert, `clear` and
+//     anything unknown count as writing (before, such a call was not seen as a write at all — a miss, not only a
+//     refused shape; over-approximating is the safe direction, see above).
 //   - "no lock taken inside".  A listed method that holds the mutex and calls, on its own receiver, another listed
 //     method that takes it (`n.QueryName(…)` inside RegisterName) would deadlock (sync.RWMutex is not re-entrant):
 //     refused with an error rather than described by facts that cannot express it.
@@ -244,6 +249,30 @@ func nbtnsLocks(repo string) (string, any, error) {
 					if s, ok := x.Fun.(*ast.SelectorExpr); ok && (s.Sel.Name == "Unlock" || s.Sel.Name == "RUnlock") {
 						if _, ok := isSel(s.X, "mu"); ok {
 							unlocks++
+						}
+					}
+					// "the map handed to a library function"
+					for _, a := range x.Args {
+						if _, isMap := isSel(a, "names"); !isMap {
+							continue
+						}
+						switch f := x.Fun.(type) {
+						case *ast.Ident:
+							if f.Name == "clear" {
+								m.WritesNames = true
+							}
+						case *ast.SelectorExpr:
+							q := ""
+							if pk, ok := f.X.(*ast.Ident); ok {
+								q = pk.Name + "." + f.Sel.Name
+							}
+							switch {
+							case q == "maps.Keys", q == "maps.Values", q == "maps.All", q == "maps.Clone", q == "maps.Equal", q == "maps.EqualFunc", strings.HasPrefix(q, "fmt."):
+							default:
+								m.WritesNames = true
+							}
+						default:
+							m.WritesNames = true
 						}
 					}
 				}
